@@ -398,19 +398,30 @@ def preemption_sweep(col, sub, module_names, first, second, label,
             if not paused.wait(30):
                 resume.set()
                 raise HarnessError('preemption sweep: first call hung')
-            res_b = None
+            res_b = []
+            tb = None
             if state['hit']:
-                try:
-                    second()
-                except Violation as v:
-                    res_b = v
-                except BaseException:
-                    res_b = traceback.format_exc()
+                def run_b():
+                    try:
+                        second()
+                    except Violation as v:
+                        res_b.append(v)
+                    except BaseException:
+                        res_b.append(traceback.format_exc())
+
+                # B runs while A is suspended; if A was stopped inside a
+                # critical section B legitimately blocks on A's lock: give
+                # it a moment, then let A go on and wait for both
+                tb = threading.Thread(target=run_b)
+                tb.start()
+                tb.join(0.25)
             resume.set()
             th.join(30)
-            if th.is_alive():
-                raise HarnessError('preemption sweep: first call did not '
-                                   'finish after the second one')
+            if tb is not None:
+                tb.join(30)
+            if th.is_alive() or (tb is not None and tb.is_alive()):
+                raise HarnessError('preemption sweep: a call did not finish')
+            res_b = res_b[0] if res_b else None
             if not state['hit']:
                 break
             explored += 1
@@ -483,6 +494,10 @@ def preempt_calls(col, sub, module_names, calls, before_each=None):
                 got = ('value', c[1]())
             except Exception as e:
                 got = ('raise', type(e).__name__)
+                # a subclass of the documented class is that class
+                if c[2][0] == 'raise' and c[2][1] in [
+                        k.__name__ for k in type(e).__mro__]:
+                    got = c[2]
             if got != c[2]:
                 raise Violation(sub, '%s: %r, expected %r' % (c[0], got, c[2]),
                                 {'call': c[0], 'preempt_calls': True})
@@ -492,7 +507,7 @@ def preempt_calls(col, sub, module_names, calls, before_each=None):
         a, b = calls[i], calls[(i + 1) % len(calls)]
         total += preemption_sweep(col, sub, module_names, mk(a), mk(b),
                                   '%s | %s' % (a[0], b[0]),
-                                  before_each=before_each)
+                                  before_each=before_each, max_seconds=4)
     return total
 
 
